@@ -240,6 +240,11 @@ def law_c05(args):
         if a2.contains(x, prereleases=True) is not m: return "duplication changes the answer: %r %r" % (A, x)
         if SpecifierSet("").contains(x, prereleases=True) is not True: return "empty set does not match %r" % x
     # intersection
+    aa = AND(a, a)      # theorem C05_and_idempotent_text: a & a never raises, keeps the override, is == a and matches what a matches
+    if aa is None or aa != a or hash(aa) != hash(a) or aa.prereleases is not a.prereleases or str(aa) != str(a): return "& is not idempotent: %r" % (A,)
+    for x in cands:
+        for setting in (True, False):
+            if aa.contains(x, prereleases=setting) is not a.contains(x, prereleases=setting): return "a & a answers differently from a: %r %r" % (A, x)
     ab, ba = AND(a, b_), AND(b_, a)
     contradictory = {TRI[oa], TRI[ob]} == {True, False}
     if (ab is None) != contradictory or (ba is None) != contradictory: return "error cell of & wrong for overrides %s %s" % (oa, ob)
